@@ -83,12 +83,11 @@ Section StepRel.
       destruct (append_loop i (c_pick ch) ms st) as [st1 us]. cbn [fst] in G.
       pfst (post_sync s (Some i) st1). eapply R_trans; [exact G|apply R_post_sync].
     - eapply R_trans; [apply R_drop|]. apply R_select. exact Hal.
-    - destruct (resolve st s) as [| | |sl i b]; try apply R_refl.
-      + destruct (lookup s (sess st)) as [sl|]; [|apply R_refl].
-        destruct (s_ro sl); [|apply R_refl]. destruct (c_alt ch); [|apply R_refl]. apply R_drop.
-      + destruct (s_ro sl).
-        * destruct (c_alt ch); [|apply R_refl]. apply R_drop.
-        * cbn [fst]. eapply R_trans; [apply R_remove|apply R_drop].
+    - destruct (lookup s (sess st)) as [sl|]; [|apply R_refl].
+      destruct (s_ro sl); [apply R_drop|].
+      destruct (find_box st (s_name sl)) as [[i b]|]; [|apply R_drop].
+      destruct (i =? s_bid sl); [|apply R_refl].
+      cbn [fst]. eapply R_trans; [apply R_remove|apply R_drop].
     - apply R_drop.
     - destruct (resolve st s) as [| | |sl i b]; try apply R_refl.
       pfst (do_sync s sl b st). apply R_do_sync.
@@ -105,7 +104,7 @@ Section StepRel.
       cbn [fst] in G. pfst (resync s st1). eapply R_trans; [exact G|apply R_resync].
     - destruct (resolve st s) as [| | |sl i b]; try apply R_refl.
       destruct (find_box st nm) as [[j bj]|]; [|apply R_refl].
-      destruct (s_ro sl && c_alt ch); [apply R_refl|].
+      destruct (s_ro sl); [apply R_refl|].
       destruct (pick_ok st s j (c_pick ch)); [|apply R_refl].
       match goal with |- context [copy_loop true i j ?c ?us st] =>
         pose proof (R_copy_loop true i j c us st) as G;
